@@ -300,6 +300,7 @@ impl UnusedVariableVisitor {
     fn process_unused_type_params(
         &mut self,
         type_param_info: &TypeParamInfo,
+        name_sym: Option<&Symbol>,
         open_paren: &Position,
     ) {
         let params = &type_param_info.params;
@@ -335,17 +336,31 @@ impl UnusedVariableVisitor {
 
             let removal_position = if all_unused {
                 // Remove entire <...> section. The `<` is right before the first
-                // type param, and `>` is right after the last one (before open paren).
+                // type param, and `>` is right before the open paren.
                 let first_tp = &params[0].0;
-                let last_tp = &params[params.len() - 1].0;
+                // Everything between the function name and the open
+                // paren is the `<...>` section, however it is laid out
+                // (`f< T >(`, or spread over several lines). Without a
+                // name, assume `<` is the char before the first type param.
+                let (start_offset, line_number, column) = match name_sym {
+                    Some(name_sym) => (
+                        name_sym.position.end_offset,
+                        name_sym.position.end_line_number,
+                        name_sym.position.end_column,
+                    ),
+                    None => (
+                        first_tp.position.start_offset - 1,
+                        first_tp.position.line_number,
+                        first_tp.position.column.saturating_sub(1),
+                    ),
+                };
                 Position {
-                    // Start at `<` which is one char before the first type param
-                    start_offset: first_tp.position.start_offset - 1,
+                    start_offset,
                     // End at `>` which is right before the open paren
                     end_offset: open_paren.start_offset,
-                    line_number: first_tp.position.line_number,
-                    end_line_number: last_tp.position.end_line_number,
-                    column: first_tp.position.column.saturating_sub(1),
+                    line_number,
+                    end_line_number: open_paren.line_number,
+                    column,
                     end_column: open_paren.column,
                     path: Rc::clone(&tp.position.path),
                     vfs_path: tp.position.vfs_path.clone(),
@@ -512,7 +527,11 @@ impl Visitor for UnusedVariableVisitor {
         self.pop_scope();
 
         let type_param_info = self.type_param_info.pop().unwrap();
-        self.process_unused_type_params(&type_param_info, &fun_info.params.open_paren);
+        self.process_unused_type_params(
+            &type_param_info,
+            fun_info.name_sym.as_ref(),
+            &fun_info.params.open_paren,
+        );
     }
 
     fn visit_expr_variable(&mut self, var: &Symbol) {
